@@ -595,6 +595,39 @@ def search(ctx, broken, seeds):
                 return {"input": dict(inp, hash=old), "observed": {"ok": ok, "new": new}, "expected": f"(True, new) with new = {want_scheme} at {want_rounds} rounds, needing no further update"}
             if c.verify_and_update("pw", new, category=cat) != (True, None):
                 return {"input": dict(inp, hash=new), "observed": "another update requested", "expected": "(True, None): fixed point after one step"}
+    # a category's options given through the `all` pseudo-scheme apply to every scheme of that category, whether or not the scheme has an
+    # option of its own there (expectation written from the documentation: <cat>__all__<opt> = default for all schemes in that category)
+    rs = ["sha256_crypt", "sha512_crypt", "pbkdf2_sha256", "sha1_crypt"]
+    for _ in range(10 if not ctx.thorough else 120):
+        a, b2 = rng.sample(rs, 2)
+        lo, hi = 3000, 5000
+        opt = rng.choice(["min_rounds", "max_rounds", "default_rounds"])
+        own = rng.choice([None, a, b2])
+        kw = {"schemes": [a, b2], "default": rng.choice([a, b2]), f"admin__all__{opt}": {"min_rounds": lo, "max_rounds": hi, "default_rounds": 4000}[opt]}
+        if own:
+            kw[f"admin__{own}__vary_rounds"] = 0            # an own option of one scheme in that category, changing nothing
+        try:
+            c = CryptContext(**kw)
+        except Exception as e:  # noqa: BLE001
+            return {"input": {"op": "category-all-option", "kwds": kw}, "observed": errname(e) + ": " + str(e)[:80], "expected": "a valid configuration"}
+        for n in (a, b2):
+            hh = registry.get_crypt_handler(n)
+            for r in (2000, 4000, 6000):
+                hs = hh.using(rounds=r).hash("pw")
+                for cat in (None, "admin", "other"):
+                    if cat == "admin":
+                        want = {"min_rounds": r < lo, "max_rounds": r > hi, "default_rounds": False}[opt]
+                    else:
+                        want = False
+                    got = c.needs_update(hs, category=cat)
+                    if got != want:
+                        return {"input": {"op": "category-all-option", "kwds": kw, "category": cat, "scheme": n, "rounds": r, "hash": hs}, "observed": got, "expected": want}
+        if opt == "default_rounds":
+            d = c.default_scheme(category="admin")
+            fresh = c.hash("pw", category="admin")
+            got = registry.get_crypt_handler(d).from_string(fresh).rounds
+            if got != 4000:
+                return {"input": {"op": "category-all-option", "kwds": kw, "category": "admin", "call": "hash"}, "observed": {"hash": fresh, "rounds": got}, "expected": 4000}
     # per-category `deprecated`: the value that APPLIES to the category decides ("auto" = everything but that category's default; a list =
     # exactly the listed schemes; an empty list = nothing), whichever spelling the global setting uses
     base_schemes = ["sha256_crypt", "md5_crypt", "des_crypt"]
